@@ -34,6 +34,8 @@ def run_pair(spec):
     dual = copy.deepcopy(spec)
     dual["task"]["minmax"] = "min"
     dual["task"]["objective"]["negate"] = not spec["task"]["objective"].get("negate", False)
+    # the dual run starts from another ambient random state: a seeded run does not depend on it (seed 0 included)
+    dual["pre_noise"] = int(spec.get("pre_noise", 0)) + 1
     b = observe.run(dual, keep_snaps=False, snapshots_cfg=False)
     return a, b
 
